@@ -35,14 +35,34 @@ struct counted {
     ~counted() { ++dtor; }
 };
 // a payload whose construction from a negative int throws (inside future::set, after the promise was claimed)
+// It counts its instances and carries a marker, so that a "value" that was never constructed (or is destroyed without
+// having been constructed) is visible in the output instead of being garbage.
 struct thrower {
+    static inline int ctor = 0, dtor = 0;
+    static constexpr unsigned long long MAGIC = 0x7468726f77657221ULL;
+    unsigned long long magic;
     int v;
-    thrower(int x) : v(x) { if (x < 0) throw std::runtime_error("negative"); }
+    thrower(int x) : magic(MAGIC), v(x) { if (x < 0) throw std::runtime_error("negative"); ++ctor; }
+    thrower(const thrower &o) : magic(MAGIC), v(o.v) { ++ctor; }
+    thrower(thrower &&o) : magic(MAGIC), v(o.v) { ++ctor; }
+    thrower &operator=(const thrower &o) { v = o.v; return *this; }
+    ~thrower() { ++dtor; magic = 0; }
 };
 template <typename T> struct P;
 template <> struct P<thrower> {
     static int make(int v) { return v; }      // constructed in place from the int
-    static std::string show(thrower &v) { return "v:" + std::to_string(v.v); }
+    static std::string show(thrower &v) { return v.magic == thrower::MAGIC ? "v:" + std::to_string(v.v) : std::string("v:raw-storage"); }
+};
+// a payload with an initializer_list constructor, resolved by in-place multi-argument construction: (2, v) must give {v, v}
+using vec = std::vector<int>;
+template <> struct P<vec> {
+    static vec make(int v) { return vec(2, v); }
+    static std::string show(vec &x) {
+        if (x.size() == 2 && x[0] == x[1]) return "v:" + std::to_string(x[0]);
+        std::string s = "v:bad[";
+        for (std::size_t i = 0; i < x.size() && i < 8; i++) s += (i ? "," : "") + std::to_string(x[i]);
+        return s + "]";
+    }
 };
 template <> struct P<int> {
     static int make(int v) { return v; }
@@ -224,6 +244,7 @@ struct Scn {
             if (auto m = prom->claim()) {
                 if constexpr (std::is_void_v<T>) derived_promise<T>::do_set(m);
                 else if constexpr (std::is_reference_v<T>) { ref_cells[tid] = v; derived_promise<T>::do_set(m, ref_cells[tid]); }
+                else if constexpr (std::is_same_v<T, vec>) derived_promise<T>::do_set(m, 2, v);
                 else derived_promise<T>::do_set(m, P<T>::make(v));
                 derived_promise<T>::do_resolve(m);
                 r = true;
@@ -232,7 +253,7 @@ struct Scn {
             int v = atoi(a[2].c_str());
             if constexpr (std::is_void_v<T>) { auto sp = (*prom)(); r = sp; }
             else if constexpr (std::is_reference_v<T>) { ref_cells[tid] = v; auto sp = (*prom)(ref_cells[tid]); r = sp; }
-
+            else if constexpr (std::is_same_v<T, vec>) { auto sp = (*prom)(2, v); r = sp; }   // in place: two copies of v
             else { auto sp = (*prom)(P<T>::make(v)); r = sp; }
         } else if (a[1] == "exc") {
             // every way the API accepts an exception is the same model step; which spelling is used depends on the code only
@@ -366,6 +387,7 @@ struct Scn {
         if (fut->pending()) { log("end"); std::cout.flush(); _exit(0); }   // cannot destroy a pending future
         fut.reset();
         if constexpr (std::is_same_v<T, counted>) log("counted ctor-dtor=" + std::to_string(counted::ctor - counted::dtor));
+        if constexpr (std::is_same_v<T, thrower>) log("thrower ctor-dtor=" + std::to_string(thrower::ctor - thrower::dtor));
     }
 };
 
@@ -391,6 +413,7 @@ static void run_case(const std::vector<std::string> &hdr, const std::vector<std:
     else if (T == "uptr") { Scn<std::unique_ptr<int>> s; s.assign_end = assign_end; s.assign_from_val = assign_from; s.pwd_kind = pwd_kind; s.pwd_val = pwd_val; s.run(threads, sched, destroy); }
     else if (T == "ref") { Scn<int &> s; s.assign_end = assign_end; s.assign_from_val = assign_from; s.pwd_kind = pwd_kind; s.pwd_val = pwd_val; s.run(threads, sched, destroy); }
     else if (T == "counted") { Scn<counted> s; s.assign_end = assign_end; s.assign_from_val = assign_from; s.pwd_kind = pwd_kind; s.pwd_val = pwd_val; s.run(threads, sched, destroy); }
+    else if (T == "vec") { Scn<vec> s; s.assign_end = assign_end; s.assign_from_val = assign_from; s.pwd_kind = pwd_kind; s.pwd_val = pwd_val; s.run(threads, sched, destroy); }
     else if (T == "thrower") { Scn<thrower> s; s.assign_end = assign_end; s.assign_from_val = assign_from; s.pwd_kind = pwd_kind; s.pwd_val = pwd_val; s.run(threads, sched, destroy); }
     S().log_line("end");
 }
